@@ -63,7 +63,7 @@ type c18Case struct {
 
 const c18Note = "generator parameters of one concurrent history; re-running reproduces the workload (per-goroutine op choices), not necessarily the interleaving — replay repeats the history up to 200 times and stops at the first violation"
 
-var c18Formats = []string{"%d", "x%dy", "", "%s", "%05d"}
+var c18Formats = []string{"%d", "x%dy", "", "%s", "%05d", "100%%_%d", "%d%%", "a%%b%3dc", "n%-4d|", "%+d"}
 
 const (
 	c18Acq = iota
@@ -74,40 +74,77 @@ const (
 
 var c18OpName = []string{"Acquire", "Release", "Release-again", "Release(nil)"}
 
-// c18Parse recognises formats of the shape <literal>%[0][width]d<literal>;
-// only for those the property fixes the text ("the format should include
-// exactly one format verb for base 10 integers").
-func c18Parse(format string) (pre, suf string, zero bool, width int, ok bool) {
-	i := strings.IndexByte(format, '%')
-	if i < 0 || strings.Count(format, "%") != 1 {
-		return
+// c18Fmt is a parsed format of the documented shape: literal text (in which
+// "%%" stands for a percent sign) around exactly one base-10 integer verb
+// %[flags][width]d. Only for those the property fixes the text ("the format
+// should include exactly one format verb for base 10 integers").
+type c18Fmt struct {
+	pre, suf          string
+	zero, left, plus  bool
+	width             int
+	escapes           bool
+}
+
+func c18Parse(format string) (f c18Fmt, ok bool) {
+	var lit strings.Builder
+	seenVerb := false
+	for i := 0; i < len(format); i++ {
+		c := format[i]
+		if c != '%' {
+			lit.WriteByte(c)
+			continue
+		}
+		if i+1 < len(format) && format[i+1] == '%' {
+			lit.WriteByte('%')
+			f.escapes = true
+			i++
+			continue
+		}
+		if seenVerb {
+			return f, false
+		}
+		seenVerb = true
+		f.pre = lit.String()
+		lit.Reset()
+		j := i + 1
+	flags:
+		for j < len(format) {
+			switch format[j] {
+			case '0':
+				f.zero = true
+			case '-':
+				f.left = true
+			case '+':
+				f.plus = true
+			default:
+				break flags
+			}
+			j++
+		}
+		k := j
+		for k < len(format) && format[k] >= '0' && format[k] <= '9' {
+			k++
+		}
+		if k > j {
+			f.width, _ = strconv.Atoi(format[j:k])
+		}
+		if k >= len(format) || format[k] != 'd' {
+			return f, false
+		}
+		i = k
 	}
-	pre = format[:i]
-	rest := format[i+1:]
-	if strings.HasPrefix(rest, "0") {
-		zero = true
-		rest = rest[1:]
-	}
-	j := 0
-	for j < len(rest) && rest[j] >= '0' && rest[j] <= '9' {
-		j++
-	}
-	if j > 0 {
-		width, _ = strconv.Atoi(rest[:j])
-	}
-	rest = rest[j:]
-	if !strings.HasPrefix(rest, "d") {
-		return
-	}
-	return pre, rest[1:], zero, width, true
+	f.suf = lit.String()
+	return f, seenVerb
 }
 
 func c18Class(format string) (class string, judged bool) {
-	pre, suf, _, width, ok := c18Parse(format)
+	f, ok := c18Parse(format)
 	switch {
-	case ok && width > 0:
+	case ok && f.escapes:
+		return "escaped-percent-d", true
+	case ok && (f.width > 0 || f.plus):
 		return "padded-d", true
-	case ok && (pre != "" || suf != ""):
+	case ok && (f.pre != "" || f.suf != ""):
 		return "affix-d", true
 	case ok:
 		return "plain-d", true
@@ -119,16 +156,24 @@ func c18Class(format string) (class string, judged bool) {
 
 // c18Expect is the independent oracle for the text (strconv, not fmt).
 func c18Expect(format string, id uint64) string {
-	pre, suf, zero, width, _ := c18Parse(format)
+	f, _ := c18Parse(format)
 	d := strconv.FormatUint(id, 10)
-	for len(d) < width {
-		if zero {
+	if f.plus {
+		d = "+" + d
+	}
+	for len(d) < f.width {
+		switch {
+		case f.left:
+			d = d + " "
+		case f.zero && f.plus:
+			d = "+0" + d[1:]
+		case f.zero:
 			d = "0" + d
-		} else {
+		default:
 			d = " " + d
 		}
 	}
-	return pre + d + suf
+	return f.pre + d + f.suf
 }
 
 type c18Rec struct {
@@ -734,11 +779,11 @@ func c18Gen(seed int64, i int) c18Case {
 
 func runC18(c *Ctx) {
 	r := c.R
-	r.Rule = "seeded concurrent histories (<= 2k ops) of Acquire / Release / second Release by the owner / Release(nil) / hand-over of a held name through a channel, on a fresh pool each, over 1..64 goroutines, 0-3 yields between steps, GOMAXPROCS 1..16, optional side goroutine forcing runtime.GC(), formats %d, x%dy, \"\", %s, %05d; 4 of 5 histories are stamped and monitored (porcupine per id + holder map), 1 of 5 runs bare for the race detector; non-trivial = a monitored history in which an id was acquired again while other names were held; distinct = (generator parameters, observed interleaving hash)"
+	r.Rule = "seeded concurrent histories (<= 2k ops) of Acquire / Release / second Release by the owner / Release(nil) / hand-over of a held name through a channel, on a fresh pool each, over 1..64 goroutines, 0-3 yields between steps, GOMAXPROCS 1..16, optional side goroutine forcing runtime.GC(), formats %d, x%dy, \"\", %s, %05d, 100%%_%d, %d%%, a%%b%3dc, n%-4d|, %+d; 4 of 5 histories are stamped and monitored (porcupine per id + holder map), 1 of 5 runs bare for the race detector; non-trivial = a monitored history in which an id was acquired again while other names were held; distinct = (generator parameters, observed interleaving hash)"
 	r.TrustedBase = []string{"github.com/anishathalye/porcupine v1.3.0", "held-bit model, holder-map monitor and strconv text oracle in harness/cmd/vworker/c18.go", "Go race detector"}
 	r.Assumptions = []string{
 		"a *Name is used by one goroutine at a time: a name changes hands only through a channel send; two goroutines releasing the same *Name with no ordering between them is misuse and is not generated",
-		"the text is judged only for formats with exactly one integer verb (%d, x%dy, %05d); what the text is for a format without a verb or with %s is not stated (the library returns fmt's %!(EXTRA…)/%!s(…) strings) — counted in unjudged_text_shapes, not judged; text uniqueness is judged for the same formats only",
+		"the text is judged only for formats with exactly one integer verb (literal text with %% escapes around one %[flags][width]d verb); what the text is for a format without a verb or with %s is not stated (the library returns fmt's %!(EXTRA…)/%!s(…) strings) — counted in unjudged_text_shapes, not judged; text uniqueness is judged for the same formats only",
 		"'cleared' = the Name equals the zero Name and Name()==\"\"; Name.ID() on a released name panics (nil dereference) — counted, not judged; (*Name)(nil).Release() is not generated",
 		"the stamp counter and the monitor mutex add happens-before edges between non-overlapping operations; overlapping operations stay unordered for the race detector, and every fifth history runs without stamps and monitor",
 		"under -race sync.Pool drops a quarter of the Puts and bypasses its per-P caches less predictably; that only mints more ids",
